@@ -1036,4 +1036,44 @@ theorem ssBackends_ssPut (l : List SS) (bs : List Backend) (h : bs.length = l.le
 
 theorem nsPerSec_pos : 0 < nsPerSec := by decide
 
+/-! ### reload with an identical conf -/
+
+/-- what UpdateWeight does to a backend whose weight is unchanged -/
+def normB (b : Backend) : Backend := if b.weight ≤ 0 then { b with current := 0 } else b
+
+theorem eligible_normB (b : Backend) : eligible (normB b) = eligible b := by
+  unfold normB; split <;> simp [eligible]
+
+theorem normB_of_eligible (b : Backend) (h : eligible b = true) : normB b = b := by
+  unfold normB
+  have : ¬ b.weight ≤ 0 := by simp [eligible] at h; omega
+  simp [this]
+
+theorem elig_map_normB (bs : List Backend) : elig (bs.map normB) = elig bs := by
+  induction bs with
+  | nil => rfl
+  | cons b bs ih =>
+    unfold elig at ih ⊢
+    by_cases h : eligible b = true
+    · simp [List.filter_cons, eligible_normB, h, ih, normB_of_eligible b h]
+    · simp [List.filter_cons, eligible_normB, h, ih]
+
+theorem pattern_map_normB (bs : List Backend) : pattern (bs.map normB) = pattern bs := by
+  simp [pattern, List.map_map, Function.comp_def, eligible_normB]
+
+theorem picks_map_normB (k : Nat) (bs : List Backend) : picks k (bs.map normB) = picks k bs := by
+  rw [picks_filter k (bs.map normB), picks_filter k bs, elig_map_normB, pattern_map_normB]
+
+theorem updateWeight_same (g w : Int) (hg : 0 < g) (b : Backend) (hb : b.weight = w * g) :
+    updateWeight g w b = normB b := by
+  have hiff := mul_pos_iff' g w hg
+  unfold updateWeight normB
+  rw [hb]
+  by_cases hw : w ≤ 0
+  · have : w * g ≤ 0 := by rw [Int.mul_comm]; exact hiff.mpr hw
+    simp [hw, this]
+  · have : ¬ w * g ≤ 0 := by rw [Int.mul_comm]; exact fun h => hw (hiff.mp h)
+    simp only [hw, this, if_false]
+    cases b; simp_all
+
 end BfeVerif.C01
